@@ -118,16 +118,23 @@ void splinetable<Alloc>::convolve(const uint32_t dim, const double* conv_knots, 
 	//space for the new ones. Most of the old knot data we still need, so we
 	//have to make temporary buffers for it.
 	
-	deallocate(this->coefficients,this->naxes[0]*this->strides[0]);
-	
+	//copy the old knots, except in the convolution dimension
 	std::unique_ptr<std::unique_ptr<double[]>[]> knots_store(new std::unique_ptr<double[]>[ndim]);
 	for (uint32_t i = 0; i < ndim; i++) {
-		//copy the old knots, except in the convolution dimension
 		if (i!=dim) {
 			knots_store[i].reset(new double[nknots[i]]);
 			std::copy(knots[i],knots[i]+nknots[i],knots_store[i].get());
 		}
+	}
+	
+	//From here on the table is inconsistent until the new arrays are in place.
+	//Should an allocation fail, give up what is left rather than keep pointers
+	//to storage which has been released.
+	deallocate(this->coefficients,this->naxes[0]*this->strides[0]);
+	this->coefficients = nullptr;
+	for (uint32_t i = 0; i < ndim; i++) {
 		deallocate(knots[i]-order[i],nknots[i]+2*order[i]);
+		knots[i] = nullptr;
 	}
 	
 	this->nknots[dim] = n_rho;
@@ -135,13 +142,18 @@ void splinetable<Alloc>::convolve(const uint32_t dim, const double* conv_knots, 
 	this->naxes[dim] = naxes[dim];
 	std::copy(strides.get(),strides.get()+ndim,this->strides);
 	
-	this->coefficients = allocate<float>(arraysize);
-	std::copy(coefficients.get(),coefficients.get()+arraysize,this->coefficients);
-	
-	for (uint32_t i = 0; i < ndim; i++) {
-		knots[i] = allocate<double>(nknots[i]+2*order[i]) + order[i];
-		double* src = (i!=dim ? knots_store[i].get() : rho);
-		std::copy(src,src+nknots[i],&knots[i][0]);
+	try{
+		this->coefficients = allocate<float>(arraysize);
+		std::copy(coefficients.get(),coefficients.get()+arraysize,this->coefficients);
+		
+		for (uint32_t i = 0; i < ndim; i++) {
+			knots[i] = allocate<double>(nknots[i]+2*order[i]) + order[i];
+			double* src = (i!=dim ? knots_store[i].get() : rho);
+			std::copy(src,src+nknots[i],&knots[i][0]);
+		}
+	}catch(...){
+		clear();
+		throw;
 	}
 	
 	/*
